@@ -333,12 +333,14 @@ def k_c07(ctx):
             # accept/reject is compared only where the all-years run succeeds (a matching failure is C05's observable)
             w = ("legs", "cost", "proceeds", "totals", "years", "holdings") + (("accept", "error") if a.get("ok") else ())
             kd, cr = case_diffs(ls, mm, f, w)
-            if kd:
+            def k_report():
                 ctx.disagreements_checked += 1
                 ctx.violation("correspondence K.C07.filter broken (year %d): %s" % (y, kd[0][1:]), {"input_dsl": ledger.render(ls), "year": y, "model": mm, "code": f,
-                              "correspondence": "K.C07.filter"}, found_input=False); continue
+                              "correspondence": "K.C07.filter"}, found_input=False)
             if not a.get("ok"):
+                if kd: k_report()
                 continue
+            nv = len(ctx.violations) + getattr(ctx, "suppressed", 0)
             ca = compare.canon_rust(a["report"])
             if not f.get("ok"):
                 c = compare.classify_error(f.get("error", ""))
@@ -362,6 +364,8 @@ def k_c07(ctx):
             if d:
                 ctx.disagreements_checked += 1
                 ctx.violation("report for year %d is not the slice of the all-years report: %s" % (y, d[0]), {"input_dsl": ledger.render(ls), "year": y, "code_all": a, "code_year": f}, found_input=True)
+            elif kd and nv == len(ctx.violations) + getattr(ctx, "suppressed", 0):
+                k_report()
         ctx.sample({"year_filter": y, "cases": len(cs)})
     # years ascending and each disposal in the year of its date (all-years mode)
     for cid, ls in cases.items():
